@@ -7,7 +7,7 @@ rsync -a --exclude target --exclude .git /repo/ $S/
 ( cd $S && patch -p1 -s < $PATCH ) || { echo "PATCH FAILED"; rm -rf $S; exit 9; }
 tag=$(python3 -c "import hashlib,sys;print(hashlib.sha1(sys.argv[1].encode()).hexdigest()[:10])" $S)
 # reuse the compiled dependencies of the /repo build (the crate itself is recompiled from the scratch sources)
-[ -d /verif/.cache/kani-target-repo ] && cp -r /verif/.cache/kani-target-repo /verif/.cache/kani-target-scratch-$tag
+[ "${VERIF_ONLY:-}" != verus ] && [ -d /verif/.cache/kani-target-repo ] && cp -r /verif/.cache/kani-target-repo /verif/.cache/kani-target-scratch-$tag
 for P in "$@"; do
   t0=$(date +%s)
   out=$(VERIF_REPO=$S VERIF_NO_NATIVE_REPLAY=${VERIF_NO_NATIVE_REPLAY:-1} /verif/bin/vcheck $P --tier $TIER 2>&1 | grep -v "^WARNING")
